@@ -193,10 +193,33 @@ SRC_MARKERS = {n: Marker(n) for n in ("io.BufferedIOBase", "io.TextIOWrapper", "
 _FILE_KINDS = {"io.BufferedIOBase", "io.BufferedReader", "io.IOBase"}
 
 
-def file_source(data: bytes, position: int = 0) -> Obj:
+_FD_TABLE: Dict[int, bytes] = {}     # descriptors of on-disk model files, for mmap
+
+
+class MMapObj(bytes):
+    """Read-only memory map of a model file: slicing gives bytes, len() the file size (like mmap.mmap); not an instance of
+    `bytes` for the program under analysis (the interpreter's isinstance sees the marker class)."""
+    _spv_not_bytes = True
+
+
+def _mmap(fileno, length=0, *a, **k):
+    """mmap.mmap(fd, 0, access=ACCESS_READ) of a model file: like CPython, an empty file cannot be mapped."""
+    from .interp import ExcVal, Raised
+    if fileno not in _FD_TABLE:
+        raise Raised(ExcVal("OSError", ("[Errno 9] Bad file descriptor",)))
+    data = _FD_TABLE[fileno]
+    if len(data) == 0:
+        raise Raised(ExcVal("ValueError", ("cannot mmap an empty file",)))
+    return MMapObj(data if not length else data[:length])
+
+
+def file_source(data: bytes, position: int = 0, on_disk: bool = False) -> Obj:
     """A binary file object; ``position`` is where the handle stands when it is given to the library (a caller may have
-    peeked at the file before)."""
+    peeked at the file before); ``on_disk`` files have a descriptor (fileno), in-memory ones raise like io.BytesIO."""
     st = {"pos": position, "reads": 0}
+    if on_disk:
+        fd = 1000 + len(_FD_TABLE)
+        _FD_TABLE[fd] = bytes(data)
 
     def read(n=-1):
         st["reads"] += 1
@@ -216,7 +239,12 @@ def file_source(data: bytes, position: int = 0) -> Obj:
             st["pos"] = len(data) + off
         return st["pos"]
 
-    return Obj(None, __kind__="file", read=read, seek=seek, tell=lambda: st["pos"], __state__=st, __size__=len(data))
+    def fileno():
+        if on_disk:
+            return fd
+        from .interp import ExcVal, Raised
+        raise Raised(ExcVal("UnsupportedOperation", ("fileno",)))
+    return Obj(None, __kind__="file", read=read, seek=seek, tell=lambda: st["pos"], fileno=fileno, __state__=st, __size__=len(data))
 
 
 def socket_source(fragments, stays_open: bool = False) -> Obj:
@@ -256,5 +284,7 @@ def source_externals() -> dict:
         return False
     ext = {k: v for k, v in SRC_MARKERS.items()}
     ext.update({"isinstance": isinst, "io.SEEK_END": 2, "io.SEEK_SET": 0, "io.SEEK_CUR": 1,
-                "time.time_ns": lambda: 0, "time.time": lambda: 0.0})
+                "time.time_ns": lambda: 0, "time.time": lambda: 0.0,
+                "mmap.mmap": _mmap, "mmap.ACCESS_READ": 1, "mmap.ACCESS_COPY": 3,
+                "mmap": Obj(None, mmap=_mmap, ACCESS_READ=1, ACCESS_COPY=3, __extmodule__="mmap")})
     return ext
